@@ -82,6 +82,17 @@ pub fn with_triggers(mut p: Profile) -> Profile {
     p
 }
 
+/// Finally blocks with everything in them (declarations, loops, nested try statements, calls of
+/// functions that contain try statements, fibers): the two recorded findings about finally blocks
+/// *entered by an exception* (E8, E9) are switched on, all others stay off, so a finally block reached
+/// by a return, a break or the normal end of its try block is checked in full.
+pub fn rich_finally(mut p: Profile) -> Profile {
+    p.triggers.e8 = true;
+    p.triggers.e9 = true;
+    p.w_return += 3;
+    p
+}
+
 pub fn by_name(n: &str) -> Option<Profile> {
     Some(match n {
         "c05" => c05(),
@@ -89,6 +100,7 @@ pub fn by_name(n: &str) -> Option<Profile> {
         "c07" => c07(),
         "c08" => c08(),
         "c08t" => with_triggers(c08()),
+        "c08f" => rich_finally(c08()),
         "c09" => c09(),
         "c18" => c18(),
         "mixed" => mixed(),
